@@ -14,6 +14,7 @@ def step (line : String) : String :=
   | "eparse" :: args => runEparse args
   | "req" :: args => runReq args
   | "showreq" :: args => runShowReq args
+  | "unnamed" :: args => runUnnamed args
   | "errdisp" :: args => runErrDisp args
   | "dnf" :: args => runDnf args
   | "iand" :: args => runIand args
